@@ -26,7 +26,8 @@ New == [name |-> "new", vis |-> "pub const", attrs |-> <<>>, kind |-> "", ctx |-
 BaseItem(id, fam, mac) ==
     [id |-> id, family |-> fam, macro |-> mac, mattr |-> "", attrs |-> <<>>, generics |-> <<>>, wheres |-> <<>>,
      assoc |-> <<>>, self_ty |-> "Ctr", members |-> <<>>, twin |-> "", overrides |-> <<>>, forwards |-> <<>>,
-     noerror |-> FALSE, expect |-> "clean", rule |-> ""]
+     noerror |-> FALSE, expect |-> "clean", rule |-> "",
+     late |-> 0]       \* interface: number of methods written before the associated types (0: the types open the trait body)
 
 (* ------------------------------------------------------------------ ep *)
 KindSeq == <<"instantiate", "exec", "query", "sudo", "migrate", "reply">>
@@ -147,7 +148,7 @@ WithForward(members, f, mk) ==
              [members[i] EXCEPT !.attrs = IF mk = Marker(1) THEN <<A("sv::attr", mk.p \o " " \o mk.t)>> \o @
                                           ELSE @ \o <<A("sv::attr", mk.p \o " " \o mk.t)>>]
         ELSE IF f.site = "field" /\ members[i].name = f.method
-        THEN [members[i] EXCEPT !.params = [x \in 1..Len(@) |-> IF @[x].n = f.param THEN [@[x] EXCEPT !.attrs = <<mk>>] ELSE @[x]]]
+        THEN [members[i] EXCEPT !.params = [x \in 1..Len(@) |-> IF @[x].n = f.param THEN [@[x] EXCEPT !.attrs = @ \o <<mk>>] ELSE @[x]]]
         ELSE members[i]]
 (* on a handler argument the marker may be wrapped in a conditional attribute with a true predicate: it is *)
 (* forwarded as written and still takes effect on the field                                                  *)
@@ -200,6 +201,13 @@ FwFamily == UNION {{[FwItem(mac, [FwSeq(mac)[i][1] EXCEPT !.m = Marker(1)], [FwS
                         EXCEPT !.id = "F" \o (IF mac = "contract" THEN "c" ELSE "i") \o ToString(i)] :
                       i \in 1..Len(FwSeq(mac))} : mac \in {"contract", "interface"}}
 
+(* two markers forwarded to one and the same variant / field: attributes with the same path (`doc`) and different arguments *)
+FwSameSites(mac) == {s \in FwSitesFor(mac) : s.site \in {"variant", "field"}}
+FwSameSeq(mac) == SetToSeq(FwSameSites(mac))
+FwSame == UNION {{[FwItem(mac, [FwSameSeq(mac)[i] EXCEPT !.m = Marker(1)], [FwSameSeq(mac)[i] EXCEPT !.m = Marker(2)], FALSE)
+                      EXCEPT !.id = "FS" \o (IF mac = "contract" THEN "c" ELSE "i") \o ToString(i)] :
+                    i \in 1..Len(FwSameSeq(mac))} : mac \in {"contract", "interface"}}
+
 (* ----------------------------------------------------------------- gen *)
 TP(i) == "T" \o ToString(i)
 Params == [i \in 1..GenParams |-> TP(i)]
@@ -242,10 +250,30 @@ NonPathTypes == UNION {{TyTuple(TP(i)), TyArr(TP(i)), TyParen(TP(i)), TyQualifie
 GenNonPathSeq == SetToSeq(NonPathTypes \X {1, 2, 3, 4})      \* position 4: the query's response type
 GenNonPathItem(t, pos, id) == GenItem(IF pos = 1 THEN t ELSE TyNone, IF pos = 2 THEN t ELSE TyNone, IF pos = 3 THEN t ELSE TyNone,
                                       IF pos = 4 THEN t ELSE TyNone, id)
+(* an interface with associated types: the message types are parameterised by the associated types their handlers use. *)
+(* The associated types are written at the top of the trait, or after the first / second method.                     *)
+SelfTy(t) == [ty |-> "Self::" \o t, mentions |-> <<t>>]
+SelfOpt(t) == [ty |-> "Option<Self::" \o t \o ">", mentions |-> <<t>>]
+SelfVecPair(t, u) == [ty |-> "Vec<(Self::" \o t \o ", Self::" \o u \o ")>", mentions |-> IF t = u THEN <<t>> ELSE <<t, u>>]
+IfaceArgTypes == {TyNone} \cup {SelfTy(TP(i)) : i \in 1..GenParams} \cup {SelfOpt(TP(GenParams))} \cup {SelfVecPair(TP(1), TP(GenParams))}
+GenIfaceItem(te, tq, ts, tr, late, id) ==
+    [BaseItem(id, "gen", "interface") EXCEPT
+       !.attrs = <<A("sv::custom", "msg = Empty, query = Empty")>>,
+       \* (the associated types handlers use are bounded as messages must be; `Aux` is unbounded and no handler uses it)
+       !.generics = Params, !.assoc = [i \in 1..GenParams |-> TP(i) \o ": CustomMsg"] \o <<"Aux">>, !.self_ty = "Iface", !.late = late,
+       \* the user's bounds are the bounds of the associated types (spelled as the token stream prints them)
+       !.wheres = [i \in 1..GenParams |-> [text |-> TP(i) \o " : CustomMsg", mentions |-> <<TP(i)>>]],
+       !.members = << [H("foo", "exec", <<GP("x", te), P("n", "u32")>>) EXCEPT !.body = ""],
+                      [H("ask", "query", <<GP("q", tq)>>) EXCEPT !.ret = "StdResult<" \o tr.ty \o ">", !.retm = tr.mentions, !.body = ""],
+                      [H("poke", "sudo", <<GP("s", ts)>>) EXCEPT !.body = ""] >>]
+GenIfaceSeq == SetToSeq(IfaceArgTypes \X IfaceArgTypes \X {TyNone, SelfTy(TP(1))} \X {TyNone, SelfTy(TP(GenParams))} \X {0, 1, 2})
+GenIfaceFamily == {GenIfaceItem(GenIfaceSeq[i][1], GenIfaceSeq[i][2], GenIfaceSeq[i][3], GenIfaceSeq[i][4], GenIfaceSeq[i][5], "GI" \o ToString(i)) :
+                      i \in 1..Len(GenIfaceSeq)}
 GenRespSeq == SetToSeq({TyNone, TyDirect(TP(1))} \X {TyNone, TyDirect(TP(1))})
 GenFamily == {GenItem(GenSeq[i][1], GenSeq[i][2], GenSeq[i][3], GenSeq[i][4], "G" \o ToString(i)) : i \in 1..Len(GenSeq)}
         \cup {GenRespItem(GenRespSeq[i][1], GenRespSeq[i][2], "GR" \o ToString(i)) : i \in 1..Len(GenRespSeq)}
         \cup {GenNonPathItem(GenNonPathSeq[i][1], GenNonPathSeq[i][2], "GN" \o ToString(i)) : i \in 1..Len(GenNonPathSeq)}
+        \cup GenIfaceFamily
 
 
 (* ---------------------------------------------------------------- rule *)
@@ -278,6 +306,13 @@ RuleFamily == {
     Bad(RuleHost, "X_two_mig", "two_migrate", AddMember(AddMember(RuleHost, H("migrate", "migrate", <<>>)), H("migrate2", "migrate", <<>>))),
     Bad(IfaceHost, "X_if_inst", "instantiate_in_interface", AddMember(IfaceHost, [H("instantiate", "instantiate", <<>>) EXCEPT !.body = ""])),
     Bad(IfaceHost, "X_if_mig", "migrate_in_interface", AddMember(IfaceHost, [H("migrate", "migrate", <<>>) EXCEPT !.body = ""])),
+    \* several such handlers in one interface (each of them is an offence)
+    Bad(IfaceHost, "X_if_inst2", "instantiate_in_interface", AddMember(AddMember(IfaceHost, [H("instantiate", "instantiate", <<>>) EXCEPT !.body = ""]),
+                                                                       [H("instantiate2", "instantiate", <<P("a", "u32")>>) EXCEPT !.body = ""])),
+    Bad(IfaceHost, "X_if_mig2", "migrate_in_interface", AddMember(AddMember(IfaceHost, [H("migrate", "migrate", <<>>) EXCEPT !.body = ""]),
+                                                                  [H("migrate2", "migrate", <<P("a", "u32")>>) EXCEPT !.body = ""])),
+    Bad(IfaceHost, "X_if_instmig", "instantiate_in_interface", AddMember(AddMember(IfaceHost, [H("instantiate", "instantiate", <<>>) EXCEPT !.body = ""]),
+                                                                         [H("migrate", "migrate", <<>>) EXCEPT !.body = ""])),
     Bad(IfaceHost, "X_if_gen", "generics_on_interface", [IfaceHost EXCEPT !.self_ty = "Iface<T>"]),
     Bad(IfaceHost, "X_if_noerr", "interface_without_error_type", [IfaceHost EXCEPT !.noerror = TRUE]),
     Bad(RuleHost, "X_kind", "unknown_message_kind", SetMember(RuleHost, 3, [RuleHost.members[3] EXCEPT !.attrs = <<A("sv::msg", "execute")>>])),
@@ -349,8 +384,8 @@ SitesOf(rule) ==
     CASE rule = "new_with_parameter" -> <<"new">>
       [] rule = "two_instantiate" -> <<"instantiate", "instantiate2">>
       [] rule = "two_migrate" -> <<"migrate", "migrate2">>
-      [] rule = "instantiate_in_interface" -> <<"instantiate">>
-      [] rule = "migrate_in_interface" -> <<"migrate">>
+      [] rule = "instantiate_in_interface" -> <<"instantiate", "instantiate2", "migrate">>
+      [] rule = "migrate_in_interface" -> <<"migrate", "migrate2">>
       [] rule \in {"unknown_message_kind", "unknown_sv_msg_argument", "two_sv_msg_on_one_method", "pattern_argument",
                    "sylvia_attribute_on_ctx"} -> <<"foo">>
       [] rule = "sv_attr_on_instantiate" -> <<"instantiate">>
@@ -371,7 +406,7 @@ WithSites(it) == it @@ [sites |-> SitesOf(it.rule)]
 
 (* ---------------------------------------------------------------- model *)
 FwNoHandlers == {FwNoHandlerItem("contract", "FNc"), FwNoHandlerItem("interface", "FNi")}
-Items == TLCEval(SetToSeq({WithSites(it) : it \in EpFamily \cup PtFamily \cup FwFamily \cup FwTriples \cup FwNoHandlers \cup GenFamily \cup RuleFamily}))
+Items == TLCEval(SetToSeq({WithSites(it) : it \in EpFamily \cup PtFamily \cup FwFamily \cup FwSame \cup FwTriples \cup FwNoHandlers \cup GenFamily \cup RuleFamily}))
 
 VARIABLES item,      \* index into Items
           stage,     \* "source" | "expanded"
